@@ -746,11 +746,24 @@ def direct_C19(s, data, blk) -> List[str]:
 
 
 def check_C19(tier, seed):
+    def single_layer(rng, tier):
+        # sprites with one layer (plus, half of the time, hidden ones): every frame is a single-visible-layer frame
+        out = []
+        for i in range(80 if tier == "quick" else 1500):
+            s = gen.gen_sprite(rng, max_canvas=6, max_layers=1 if i % 2 else 3, max_frames=5, rich=False)
+            keep = rng.randrange(len(s["layers"]))
+            for j, lay in enumerate(s["layers"]):
+                lay["flags"] = (lay["flags"] | 1) if j == keep else (lay["flags"] & ~1)
+                lay["level"] = 0
+                if lay["ltype"] == 1:
+                    lay["ltype"] = 0
+            out.append((s, gen.encode(s, None, rng)))
+        return out
     return run_sprites("C19", tier, seed, 15, 200, 3000, dict(max_canvas=6, max_layers=5, max_frames=4, rich=False),
                        [1, 22, 23, 24, 25, 27, 6, 7], direct_C19,
                        "structured sprites with non-square frame/layer counts; for every (frame, layer) the three routes report identical coordinates, "
                        "emptiness, offset, tilemap-ness; tilemap image = cel image; model = implementation on all of it",
-                       ["C19_routes", "C19_accessors_agree", "C19_single", "C19_tilemap_image"], max_frames=5, max_layers=6)
+                       ["C19_routes", "C19_accessors_agree", "C19_single", "C19_tilemap_image"], extra_cases=single_layer, max_frames=5, max_layers=6)
 
 
 # ==========================================================================
